@@ -1,7 +1,10 @@
 package main
 
 import (
+	"encoding/json"
 	"fmt"
+	"sort"
+	"strconv"
 	"strings"
 
 	"verif/common"
@@ -81,6 +84,138 @@ func genPatchFields(r *common.Rand) map[string]any {
 	return f
 }
 
+// genExtra draws nested resource fields for the metadata of a multipart / resumable upload.
+func genExtra(r *common.Rand) map[string]any {
+	x := map[string]any{}
+	who := common.Pick(r, []string{"user-a@example.com", "user-b@example.com"})
+	if r.Chance(3, 4) {
+		acl := []any{map[string]any{"entity": who, "role": "OWNER"}}
+		if r.Bool() {
+			acl = append(acl, map[string]any{"entity": "group-readers@example.com", "role": "READER"})
+		}
+		x["acl"] = acl
+	}
+	if r.Chance(2, 3) {
+		x["owner"] = map[string]any{"entity": who}
+	}
+	if r.Chance(1, 3) {
+		x["retention"] = map[string]any{"mode": "Unlocked", "retainUntilTime": "2031-01-02T03:04:05Z"}
+	}
+	if r.Chance(1, 3) {
+		x["customerEncryption"] = map[string]any{"encryptionAlgorithm": "AES256", "keySha256": "dmVyaWYtdmVyaWYtdmVyaWYtdmVyaWYtdmVyaWYtdmU="}
+	}
+	return x
+}
+
+// genNestedPatch draws nested fields (values that no upload ever sets) for the body of a PATCH that must fail.
+func genNestedPatch(r *common.Rand) map[string]any {
+	all := map[string]any{
+		"acl":                []any{map[string]any{"entity": "user-evil@example.com", "role": "OWNER"}, map[string]any{"entity": "allUsers", "role": "READER"}},
+		"owner":              map[string]any{"entity": "user-evil@example.com", "entityId": "666"},
+		"retention":          map[string]any{"mode": "Locked", "retainUntilTime": "2099-12-31T23:59:59Z"},
+		"customerEncryption": map[string]any{"encryptionAlgorithm": "AES256", "keySha256": "ZXZpbC1ldmlsLWV2aWwtZXZpbC1ldmlsLWV2aWwtZXY="},
+	}
+	out := map[string]any{}
+	for _, k := range nestedFields {
+		if r.Chance(3, 5) {
+			out[k] = all[k]
+		}
+	}
+	if len(out) == 0 {
+		out["acl"] = all["acl"]
+	}
+	return out
+}
+
+// genBadPatch draws a PATCH body with one member of the wrong JSON type placed after at least one valid member.
+// nested: the valid members may include nested fields (the request has to be refused as a whole, so nothing of them
+// may stick either).
+func genBadPatch(r *common.Rand, nested bool) *badPatch {
+	bads := [][2]string{{"contentType", "7"}, {"contentLanguage", `["en"]`}, {"cacheControl", `{"a":1}`}, {"contentDisposition", "true"},
+		{"metadata", "17"}, {"metadata", `"text"`}, {"acl", `"private"`}, {"owner", "5"}, {"size", `"many"`}, {"generation", `"newest"`}, {"metageneration", "[]"}}
+	bad := common.Pick(r, bads)
+	bp := &badPatch{Valid: map[string]any{}, BadKey: bad[0]}
+	for tries := 0; len(bp.Valid) == 0 || tries < 1; tries++ {
+		for k, v := range genPatchFields(r) {
+			if k != bad[0] {
+				bp.Valid[k] = v
+			}
+		}
+		if bad[0] != "metadata" && r.Chance(2, 3) {
+			bp.Valid["metadata"] = map[string]any{common.Pick(r, []string{"k", "colour", "leak"}): common.Pick(r, []string{"unacknowledged", "v2", ""})}
+		}
+	}
+	if nested {
+		for k, v := range genNestedPatch(r) {
+			if k != bad[0] {
+				bp.Valid[k] = v
+			}
+		}
+	}
+	keys := make([]string, 0, len(bp.Valid))
+	for k := range bp.Valid {
+		keys = append(keys, k)
+	}
+	sort.Strings(keys)
+	common.Shuffle(r, keys)
+	at := r.Range(1, len(keys)) // the member of the wrong type follows at least one valid member
+	var members []string
+	for i, k := range keys {
+		if i == at {
+			members = append(members, fmt.Sprintf("%q:%s", bad[0], bad[1]))
+		}
+		v, _ := json.Marshal(bp.Valid[k])
+		members = append(members, fmt.Sprintf("%q:%s", k, v))
+	}
+	if at == len(keys) {
+		members = append(members, fmt.Sprintf("%q:%s", bad[0], bad[1]))
+	}
+	bp.Raw = "{" + strings.Join(members, ",") + "}"
+	return bp
+}
+
+// genCopyBody builds the request body of a copy: a destination object resource as a read-modify-write client would
+// send it. Its output-only fields come from an earlier metadata GET of the destination or of the source (current or
+// stale, also of an earlier incarnation) or are made up (a generation below / above the destination's current one);
+// its user-settable fields are exactly the source's, so "the source's metadata" and "the metadata of the request"
+// name the same values.
+func genCopyBody(r *common.Rand, e *exec, sb, sn, db, dn string) map[string]any {
+	var body map[string]any
+	pick := func(b, n string) map[string]any {
+		if sn := e.snaps[b+"\x00"+n]; len(sn) > 0 {
+			return cloneResource(sn[r.Intn(len(sn))])
+		}
+		return nil
+	}
+	switch r.Intn(4) {
+	case 0, 1:
+		body = pick(db, dn)
+	case 2:
+		body = pick(sb, sn)
+	}
+	if body == nil {
+		body = map[string]any{"kind": "storage#object", "metageneration": "7", "size": "3", "md5Hash": model.MD5b64([]byte("fabricated")),
+			"crc32c": "AAAAAA==", "etag": "fabricated", "timeCreated": "2001-02-03T04:05:06.789Z", "updated": "2001-02-03T04:05:06.789Z"}
+		body["generation"] = strconv.FormatInt(1600000000000000000+int64(r.Intn(1000)), 10)
+	}
+	if dst := e.m.Get(db, dn); dst != nil && r.Chance(1, 3) {
+		body["generation"] = strconv.FormatInt(dst.Gen+common.Pick(r, []int64{-1, -1000, 1, 1000, 3600e9}), 10)
+	}
+	for _, k := range model.UserFields {
+		delete(body, k)
+	}
+	for _, k := range nestedFields {
+		delete(body, k)
+	}
+	if src := e.m.Get(sb, sn); src != nil {
+		for k, v := range model.CloneFields(src.Learned) {
+			body[k] = v
+		}
+	}
+	body["name"], body["bucket"] = dn, db
+	return body
+}
+
 // progOpts steers the random program generator shared by C02, C04 (histories), C09 and C10.
 type progOpts struct {
 	Buckets     []string
@@ -92,6 +227,8 @@ type progOpts struct {
 	MD5Pct      int // % of multipart/resumable uploads that declare an MD5
 	BigPerMille int
 	NoGzip      bool
+	ExtraPct    int // % of multipart/resumable uploads whose metadata carries nested fields (acl, owner, ...)
+	CopyBodyPct int // % of copies whose request body is a full destination resource
 }
 
 func (e *exec) liveIn(b string) []string { return e.m.Names(b) }
@@ -209,6 +346,9 @@ func genUpload(r *common.Rand, o *progOpts, b, n string) *uploadSpec {
 		if r.Chance(o.MD5Pct, 100) {
 			u.MD5 = common.Pick(r, []string{"right", "right", "wrong", "wrong", "malformed"})
 		}
+		if r.Chance(o.ExtraPct, 100) {
+			u.Extra = genExtra(r)
+		}
 	}
 	if u.Proto != "resumable" && !o.NoGzip && r.Chance(20, 100) {
 		u.Gzip = true
@@ -229,7 +369,7 @@ func genUpload(r *common.Rand, o *progOpts, b, n string) *uploadSpec {
 // runStep draws one step from the weighted kinds, executes it and returns what it refuted ("" if nothing).
 func runStep(r *common.Rand, e *exec, o *progOpts) string {
 	total := 0
-	kinds := []string{"upload", "overwrite", "delete", "delete_absent", "patch", "patch_absent", "compose", "copy", "burst", "patch_burst", "patch_full", "bucket_cycle", "noop"}
+	kinds := []string{"upload", "overwrite", "delete", "delete_absent", "patch", "patch_absent", "compose", "copy", "burst", "patch_burst", "patch_full", "patch_bad", "bucket_cycle", "noop"}
 	for _, k := range kinds {
 		total += o.W[k]
 	}
@@ -259,6 +399,20 @@ func runStep(r *common.Rand, e *exec, o *progOpts) string {
 			}
 		}
 		return "", false
+	}
+	// mustFail: the request is refused whatever its body says (object absent, or the conditions fail / are unparsable)
+	mustFail := func(n string, c model.Conds) bool {
+		cur := e.m.Get(b, n)
+		return cur == nil || model.Eval(cur, c) != model.Pass
+	}
+	// failing PATCH requests also try to set nested fields (acl entries, owner, ...): nothing of it may stick
+	withNested := func(n string, c model.Conds, fields map[string]any) map[string]any {
+		if mustFail(n, c) && r.Chance(2, 3) {
+			for k, v := range genNestedPatch(r) {
+				fields[k] = v
+			}
+		}
+		return fields
 	}
 	switch kind {
 	case "bucket_cycle":
@@ -305,15 +459,55 @@ func runStep(r *common.Rand, e *exec, o *progOpts) string {
 		if !ok {
 			return ""
 		}
-		snaps := e.snaps[b+"\x00"+n]
+		// whose resource: mostly the addressed object's own; two times in five that of ANOTHER object (a client
+		// copying metadata from one object onto another): a live neighbour in the same bucket, an object of another
+		// bucket, or a name that does not exist. name / bucket / id / selfLink / mediaLink of the body then differ
+		// from the URL; only the addressed object may change.
+		rb, rn, ghost := b, n, ""
+		if r.Chance(2, 5) {
+			type ref struct{ b, n string }
+			var others []ref
+			for _, ob := range o.Buckets {
+				for _, on := range e.liveIn(ob) {
+					if ob != b || on != n {
+						others = append(others, ref{ob, on})
+					}
+				}
+			}
+			switch x := r.Intn(5); {
+			case x == 0:
+				if g, ok := pickAbsent(); ok {
+					ghost = g
+				} else {
+					ghost = "no-such-object"
+				}
+			case len(others) > 0:
+				// prefer the same bucket three times in four
+				pick := common.Pick(r, others)
+				for tries := 0; tries < 3 && pick.b != b && r.Chance(3, 4); tries++ {
+					pick = common.Pick(r, others)
+				}
+				rb, rn = pick.b, pick.n
+			}
+		}
+		snaps := e.snaps[rb+"\x00"+rn]
 		if len(snaps) == 0 {
-			e.snapshot(b, n)
-			snaps = e.snaps[b+"\x00"+n]
+			e.snapshot(rb, rn)
+			snaps = e.snaps[rb+"\x00"+rn]
 		}
 		if len(snaps) == 0 {
 			return ""
 		}
 		body := cloneResource(snaps[r.Intn(len(snaps))])
+		if ghost != "" {
+			// the resource of an object that does not exist (any more): same shape, every identifying field renamed
+			for _, k := range []string{"id", "selfLink", "mediaLink"} {
+				if v, ok := body[k].(string); ok {
+					body[k] = strings.Replace(v, "/"+rn, "/"+ghost, 1)
+				}
+			}
+			body["name"] = ghost
+		}
 		if r.Chance(2, 3) {
 			for k, v := range genPatchFields(r) {
 				if k == "metadata" {
@@ -330,7 +524,24 @@ func runStep(r *common.Rand, e *exec, o *progOpts) string {
 				}
 			}
 		}
-		return e.patch(b, n, body, genConds(r, e, o, b, n))
+		c := genConds(r, e, o, b, n)
+		if !mustFail(n, c) {
+			// a patch that succeeds sets only what the model describes
+			for _, k := range nestedFields {
+				delete(body, k)
+			}
+		}
+		return e.patch(b, n, withNested(n, c, body), c)
+	case "patch_bad":
+		// a body with a JSON type error after valid members: refused as a whole, nothing may stick
+		n, ok := pickLive()
+		if !ok || r.Chance(1, 10) {
+			if n, ok = pickAbsent(); !ok {
+				return ""
+			}
+		}
+		c := genConds(r, e, o, b, n)
+		return e.patchBad(b, n, genBadPatch(r, mustFail(n, c) || r.Bool()), c)
 	case "patch_burst":
 		n, ok := pickLive()
 		if !ok {
@@ -359,13 +570,15 @@ func runStep(r *common.Rand, e *exec, o *progOpts) string {
 		if !ok {
 			return ""
 		}
-		return e.patch(b, n, genPatchFields(r), genConds(r, e, o, b, n))
+		c := genConds(r, e, o, b, n)
+		return e.patch(b, n, withNested(n, c, genPatchFields(r)), c)
 	case "patch_absent":
 		n, ok := pickAbsent()
 		if !ok {
 			return ""
 		}
-		return e.patch(b, n, genPatchFields(r), genConds(r, e, o, b, n))
+		c := genConds(r, e, o, b, n)
+		return e.patch(b, n, withNested(n, c, genPatchFields(r)), c)
 	case "compose":
 		dst, ok := pickTarget(r, e, o, b)
 		if !ok || len(live) == 0 {
@@ -382,6 +595,12 @@ func runStep(r *common.Rand, e *exec, o *progOpts) string {
 				s.GenMatch = model.I(g)
 			}
 			c.Srcs = append(c.Srcs, s)
+		}
+		if r.Chance(1, 4) {
+			// the append pattern: a live destination that is the first of its own sources
+			c.Dst = common.Pick(r, live)
+			c.Conds = genConds(r, e, o, b, c.Dst)
+			c.Srcs = append([]composeSrc{{Name: c.Dst}}, c.Srcs...)
 		}
 		if r.Chance(1, 8) {
 			if n, ok := pickAbsent(); ok {
@@ -417,6 +636,13 @@ func runStep(r *common.Rand, e *exec, o *progOpts) string {
 			if sn, ok = pickAbsent(); !ok {
 				return ""
 			}
+		}
+		if r.Chance(o.CopyBodyPct, 100) {
+			// read-modify-write client: mostly onto an object that exists (whose resource it read earlier)
+			if dl := e.liveIn(db); len(dl) > 0 && r.Chance(2, 3) {
+				dn = common.Pick(r, dl)
+			}
+			return e.copyObjBody(b, sn, db, dn, genCopyBody(r, e, b, sn, db, dn))
 		}
 		return e.copyObj(b, sn, db, dn)
 	}
